@@ -108,6 +108,9 @@ func (m *RWMutex) unlock() {
 	if w == nil || w.dead {
 		return
 	}
+	if w.anyExtern {
+		w.reenter()
+	}
 	if !m.writerActive {
 		panic("sync: Unlock of unlocked RWMutex")
 	}
@@ -178,6 +181,9 @@ func (m *RWMutex) runlock() {
 	w := Cur()
 	if w == nil || w.dead {
 		return
+	}
+	if w.anyExtern {
+		w.reenter()
 	}
 	if m.active <= 0 {
 		panic("sync: RUnlock of unlocked RWMutex")
@@ -278,6 +284,9 @@ func (m *Mutex) unlock() {
 	if w == nil || w.dead {
 		return
 	}
+	if w.anyExtern {
+		w.reenter()
+	}
 	if !m.locked {
 		panic("sync: unlock of unlocked mutex")
 	}
@@ -316,6 +325,9 @@ func (g *WaitGroup) add(delta int) {
 	w := Cur()
 	if w == nil || w.dead {
 		return
+	}
+	if w.anyExtern {
+		w.reenter()
 	}
 	g.n += delta
 	if g.n < 0 {
